@@ -36,6 +36,11 @@ def check(repo: Repo, R) -> None:
                                  "the name of a generated module depends on something other than the parameter values (an address, a salted hash): equal parameters give different names"))
     R.run(c06.check, repo, shared.Retag(R, lambda r, k: "C09.5-distinct-modules-distinct-names" if r.startswith("C06.2") and k.endswith("export_module_name") else None,
                                  "two different generated modules that share a qualified name are exported as one name defined twice, instead of being refused"))
+    R.run(qualified_names, repo, R)
+    R.run(generators_return_their_own, repo, R)
+    from . import c13 as _c13
+    R.run(_c13.to_scalar_shape, repo, shared.Retag(R, lambda r: "C09.7-equal-values-one-cache-entry",
+                                                  "a parameter value written as a float, a string or a Decimal is one number but no longer one cache key: the body runs twice, two modules come back under one name"))
     R.floor("C09.1-cache-discipline", 5)
     R.floor("C09.2-readable-names-injective", 2)
     R.floor("C09.3-hashed-names-process-independent", 3)
@@ -197,9 +202,16 @@ def hashed_names(repo: Repo, R):
         ks = {ast.unparse(c) for c in classes}
         if {"set", "frozenset"} <= ks:
             rets_ = [x for b_ in arm for x in ast.walk(b_) if isinstance(x, ast.Return)]
-            sets_ok = bool(rets_) and all(isinstance(r_.value, ast.Call) and ast.unparse(r_.value.func) == "sorted" for r_ in rets_)
-    R.check(sets_ok, rule, key_of(fe, "sets-ordered"), fe.site, f"set-valued parameters are encoded in a sorted order (not in iteration order): {sets_ok}",
-            why="the default encoder lists a set in hash order: the md5 name of a module generated from a set-valued parameter changes with PYTHONHASHSEED")
+            # sorted over the elements' *encodings* (strings: a total order) — not over the elements themselves, whose
+            # own order may be partial (sets compare by inclusion) or undefined
+            def by_text(v):
+                if not (isinstance(v, ast.Call) and ast.unparse(v.func) == "sorted" and len(v.args) == 1 and not v.keywords):
+                    return False
+                g = v.args[0]
+                return isinstance(g, (ast.GeneratorExp, ast.ListComp)) and isinstance(g.elt, ast.Call) and (dotted(g.elt.func) or "") in ("json.dumps", "str", "repr")
+            sets_ok = bool(rets_) and all(by_text(v) for r_ in rets_ for v, _c in shared.alternatives(fe.node, r_.value, shared.path_conditions(fe.node, r_), at=r_))
+    R.check(sets_ok, rule, key_of(fe, "sets-ordered"), fe.site, f"set-valued parameters are encoded as the sorted texts of their elements' encodings (a total order; not iteration order, not the elements' own order): {sets_ok}",
+            why="the default encoder lists a set in hash order, and sorted() over mutually incomparable elements (disjoint frozensets) returns its input order: the md5 name of a module generated from a set-valued parameter changes with PYTHONHASHSEED")
     R.check(ok and mods, rule, key_of(fe, "encoder"), fe.site, f"the encoder names Module/ExternalModule/Generator values by their qualified name ({mods}) and hands everything else to the (raising) default encoder ({ok})", why="module-valued parameters are named by their address-bearing repr")
 
 
@@ -239,3 +251,75 @@ def no_foreign_rename(repo: Repo, R):
     R.check(not bad, rule, key_of(fr, "name-stores-guarded"), fr.site,
             f"all {len(stores)} store(s) to {mv}.name are guarded by 'the module was not already generated by another call'" if not bad else f"`{ast.unparse(bad[0])}` (line {bad[0].lineno}) also renames a module that another generator call produced and named",
             why="a module returned through a second generator (MosStack -> Series) is renamed in place: its name grows with every generator that hands it on and depends on the call history")
+
+
+
+def qualified_names(repo: Repo, R):
+    """The path qualifier is what keeps same-named definitions (and the generated modules of same-named generators)
+    apart: it is dropped only where there is none (no Python module), never for a particular module name."""
+    rule = "C09.5-distinct-modules-distinct-names"
+    fi = repo.func("hdl21/qualname.py", "qualpath")
+    a = fi.node.args.args[0].arg
+    bad = []
+    seen = set()
+    for r in shared.returns_of(fi.node):
+        conds0 = shared.resolved_conditions(fi.node, shared.path_conditions(fi.node, r))
+        for v, cds in shared.alternatives(fi.node, r.value if r.value is not None else ast.Constant(None), conds0, at=r):
+            cds = shared.resolved_conditions(fi.node, cds)
+            t = ast.unparse(v)
+            if t == f"[{a}.name]":
+                seen.add("bare")
+                if shared.conds_imply(cds, [(shared.parse_cond(f"{a}._source_info.pymodule is None"), True)]) is not True:
+                    bad.append(f"the bare name `{t}` is returned although the definition has a Python module (under {[('' if p else 'not ') + ast.unparse(c) for c, p in cds]})")
+            elif t == "None":
+                seen.add("none")
+                if shared.conds_imply(cds, [(shared.parse_cond(f"{a}.name is None"), True)]) is not True:
+                    bad.append("None is returned for a named definition")
+            elif pat.match(f"{a}._source_info.pymodule.__name__.split('.') + [{a}.name]", v) is not None:
+                seen.add("path")
+            elif pat.match(f"{a}._importpath + [{a}.name]", v) is not None or pat.match(f"getattr({a}, '_importpath', None) + [{a}.name]", v) is not None:
+                seen.add("import")
+            else:
+                bad.append(f"`{t}` is not the module path plus the definition's name")
+    R.check(not bad and {"bare", "path"} <= seen, rule, key_of(fi), fi.site,
+            "qualpath: the Python module's dotted name plus the definition's name; bare name only when there is no Python module; None only when unnamed" + (f"; not so: {bad}" if bad else ""),
+            why="definitions of one name from two places (a script and an exec'd / imported file) get one qualified name: their generated modules collide in the package, Module-valued parameters hash to one generated name")
+    fq = repo.func("hdl21/qualname.py", "qualname")
+    ok = True
+    n = 0
+    for r in shared.returns_of(fq.node):
+        for v, cds in shared.alternatives(fq.node, r.value if r.value is not None else ast.Constant(None), shared.path_conditions(fq.node, r), at=r):
+            n += 1
+            t = ast.unparse(v)
+            if t not in ("None", f"'.'.join(qualpath({fq.node.args.args[0].arg}))"):
+                ok = False
+    R.check(ok and n >= 2, rule, key_of(fq), fq.site, f"qualname joins the whole qualified path with '.': {ok}", why="the qualified name loses components of the path")
+
+
+def generators_return_their_own(repo: Repo, R):
+    """A generator body hands back a module it made (or another generator's result) — never one of its own parameters:
+    `generator.run` names and caches whatever comes back, under this call."""
+    rule = "C09.6-result-is-the-calls-own"
+    n = 0
+    for rel in ("hdl21/generators.py",):
+        for fi in repo.funcs_in(rel):
+            decos = [ast.unparse(d) for d in fi.node.decorator_list]
+            if not any(d.split("(")[0].split(".")[-1] == "generator" for d in decos) or not fi.node.args.args:
+                continue
+            n += 1
+            pa = fi.node.args.args[0].arg
+            bad = []
+            for r in shared.returns_of(fi.node):
+                if r.value is None:
+                    continue
+                for v, _c in shared.alternatives(fi.node, r.value, shared.path_conditions(fi.node, r), at=r):
+                    root = v
+                    while isinstance(root, (ast.Attribute, ast.Subscript)):
+                        root = root.value
+                    if isinstance(root, ast.Name) and root.id == pa and not isinstance(v, ast.Call):
+                        bad.append(ast.unparse(v))
+            R.check(not bad, rule, key_of(fi), fi.site,
+                    f"{fi.name} returns modules it created (or generated), never a parameter" if not bad else f"{fi.name} returns its parameter `{bad[0]}` itself",
+                    why="calls with unequal parameters return one and the same module, and a hand-written module is renamed in place after the first call's parameters")
+    if n < 3:
+        raise AnalysisError(f"anchor-vanished: only {n} generator functions found in hdl21/generators.py")
